@@ -18,6 +18,7 @@ THEOREMS = [
     "C15_limit_bounds",
     "C15_each_a_matched_at_most_once",
     "C15_group_matches_follow_a_rows",
+    "C15_matched_count_le_a_rows",
 ]
 RULE = ("function level: columnar zones laid out like SequenceStreamMerger::batches_to_zones (1-3 zones per type incl. empty zones and "
         "zones without link / time column, link texts shared by many rows, by one side only, aliasing integers ('5','05','+5'), empty and "
